@@ -140,6 +140,8 @@ def _analyse(prog, om, f, crec, nrec, counters, creators, summ):
                 r0 = strip(rhs)
                 if is_local and lp:
                     s = {y for y in s if not (y[0] in ('C', 'N') and y[1] == lp)}
+                    if is_null(rhs):
+                        s.add(('N', lp))
                     if r0.get('kind') == 'CallExpr':
                         nm = prog.callee_name(r0)
                         rt = _rec(f, strip_parens(lhs) if ev[0] == 'assign' else ev[1])
